@@ -369,7 +369,7 @@ var c06Deviations = []deviation{
 	}},
 	{"conditions_expired", func(rng *rand.Rand, c *ssoCase) {
 		if rng.Intn(6) == 0 { // centuries ago
-			addConditions(rng, c, "", []string{"1600-01-01T00:00:00Z", "0001-01-01T00:00:00Z", "1677-09-21T00:12:43Z", "1000-06-15T12:00:00.5Z", "1969-12-31T23:59:59Z"}[rng.Intn(5)])
+			addConditions(rng, c, "", append([]string{"1600-01-01T00:00:00Z", "1000-06-15T12:00:00.5Z"}, ancientInstants...)[rng.Intn(2+len(ancientInstants))])
 			return
 		}
 		addConditions(rng, c, "", tsFrac(time.Now().Add(justPast(rng)), 3+rng.Intn(7)))
